@@ -38,6 +38,10 @@ def tasks(tier, seed):
         if not q:
             add(mode, 2, (1, 2, 1), 'zero', 'zero')
         add(mode, 1, (1, 2, 1), 'zero', 'sym')
+        # three Schmidt values at the cut: the smallest shape on which a tolerance below 1/L can cut through a degenerate plateau
+        # (67 s for the two modes on the unchanged tree: thorough tier only)
+        if not q:
+            ts.append(dict(name=f'compress_{mode}_d3_D131_zero_tolsym_rule', mode=mode, d=3, D=(1, 3, 1), qmode='zero', tolmode='sym', cut=9, exact=False, rule_only=True))
         add(mode, 2, (1, 1, 1), 'sym', 'sym', cut=10)
         ts.append(dict(name=f'compress_{mode}_d2_D1111_zero_tolsym_structural', mode=mode, d=2, D=(1, 1, 1, 1), qmode='zero', tolmode='sym', cut=8, exact=False))
         if not q:
@@ -106,14 +110,15 @@ def path(eng, acc, task):
         if any(a > b for a, b in zip(nd, old_dims)):
             fails.append(f'bond dimensions grew: {old_dims} -> {nd}')
         fails += tn.sparsity_fails(eng, acc, psi, 'mps', 'result')
-        # canonical form: every tensor is an isometry in the sweep direction (the last one after the phase absorption)
-        from harness.c01 import iso_goals
-        ig = []
-        for i in range(L):
-            ig += iso_goals(psi.A[i], 'mps', mode)
-        if prover.prove_escalating(eng, ig, rounds=(1, 2, 3), acc=acc, label='vc_canonical') != 'proved':
-            fails.append('result is not in canonical form')
-        eng.mark('canonical_checked')
+        if not task.get('rule_only'):
+            # canonical form: every tensor is an isometry in the sweep direction (the last one after the phase absorption)
+            from harness.c01 import iso_goals
+            ig = []
+            for i in range(L):
+                ig += iso_goals(psi.A[i], 'mps', mode)
+            if prover.prove_escalating(eng, ig, rounds=(1, 2, 3), acc=acc, label='vc_canonical') != 'proved':
+                fails.append('result is not in canonical form')
+            eng.mark('canonical_checked')
         # truncation rule at the first truncated bond
         if c12.RBI_LOG:
             given, idx = c12.RBI_LOG[0]
